@@ -82,6 +82,11 @@ impl FromStr for Drivers {
 
 /// Load and configure the given driver.
 pub fn load_driver(driver: Drivers, config: &Arc<Config>) -> Result<Box<dyn CopyDriver + Send>> {
+    // A block size of zero would make the copy loops spin or divide
+    // by zero; library clients do not pass through xcp's option checks.
+    if config.block_size == 0 {
+        return Err(XcpError::InvalidArguments("Block size must be greater than zero.".to_string()).into());
+    }
     let driver_impl: Box<dyn CopyDriver + Send> = match driver {
         Drivers::ParFile => Box::new(parfile::Driver::new(config.clone())?),
         #[cfg(feature = "parblock")]
